@@ -59,9 +59,26 @@ func isAtom(e GExpr) bool {
 	return false
 }
 
+// isConstExpr: an expression the compiler folds to ONE constant
+func isConstExpr(e GExpr) bool {
+	switch x := e.(type) {
+	case EInt:
+		return true
+	case EBin:
+		return x.T == TInt && isConstExpr(x.L) && isConstExpr(x.R)
+	}
+	return false
+}
+
 func (w *rewriter) expr(e GExpr) GExpr {
 	switch x := e.(type) {
 	case EBin:
+		// a large literal inside a constant-only expression never reaches the SSA as such: the compiler
+		// folds `6 & (31337 + 2)` to the SMALL constant 2, so replacing 31337 there is a behaviour change,
+		// not the cosmetic literal replacement of the catalogue
+		if w.kind == "big-lit" && isConstExpr(x) {
+			return x
+		}
 		l, r := w.expr(x.L), w.expr(x.R)
 		n := EBin{x.Op, l, r, x.T}
 		switch w.kind {
